@@ -65,8 +65,8 @@ def rule_n1_gap_registry(prog: Program, col: Collector) -> None:
         if e.args and e.args[0] == ("const", "--gap-function"):
             ch = e.kwargs.get("choices")
             okc = ch is not None and any(is_global(s, P + "run.model.GAP_FUNCTIONS") for s in subterms(ch))
-    col.check(okc, aref.where(), aref.short, "--gap-function offers choices=GAP_FUNCTIONS.keys()", construct="gap-choices", necessity="")
+    col.check(okc, aref.where(), aref.short, "--gap-function offers choices=GAP_FUNCTIONS.keys()", construct="gap-choices", necessity="a gap function that cannot be selected (or a selectable one that is not registered) is outside what the property quantifies over")
     mref = prog.func("run.model.ModelInstance.gap_function_callable")
     rv = list(fterms(prog, mref).of_kind("return"))
     okm = len(rv) == 1 and rv[0].value == ("index", ("global", P + "run.model.GAP_FUNCTIONS"), ("attr", ("param", "self"), "gap_function"))
-    col.check(okm, mref.where(), mref.short, "the instance's gap function is GAP_FUNCTIONS[self.gap_function]", construct="gap-select", necessity="")
+    col.check(okm, mref.where(), mref.short, "the instance's gap function is GAP_FUNCTIONS[self.gap_function]", construct="gap-select", necessity="the configured name must select that function")
